@@ -28,6 +28,12 @@ var registry = []prop{
 		Assume: append([]string{"damage classes are the ones the statement lists; shorter-than-needed columns and indexes beyond the string table are 'out-of-range references', longer-than-needed id columns are not judged", "a zlib bit flip counts as damage only if Go's compress/zlib rejects the stream or inflates it differently"}, pbfAssume...),
 	},
 	{
+		ID: "C07", Pkg: "props/c07", Level: "exploration", Race: true, Hang: true,
+		Quick:  tierCfg{Shards: 1, Scale: 1, TimeoutS: 500},
+		Thor:   tierCfg{Shards: 8, Scale: 5, TimeoutS: 3000},
+		Assume: append([]string{"the read-ahead allowance (3*procs+30 blocks) is the harness's generous reading of 'without consuming the rest of the input'", "after both a cancellation and Close, either the context error or the scanner-closed error is accepted; after a complete scan nil is accepted even if Close/cancel follows", "schedules are sampled, not enumerated; the race detector only sees executed interleavings"}, pbfAssume...),
+	},
+	{
 		ID: "C08", Pkg: "props/c08", Level: "exploration",
 		Quick:  tierCfg{Shards: 1, Scale: 1, TimeoutS: 300},
 		Thor:   tierCfg{Shards: 16, Scale: 4, TimeoutS: 1500},
